@@ -5,9 +5,9 @@ import (
 	"fmt"
 	"io"
 	"os"
-	"regexp"
 	"os/exec"
 	"path/filepath"
+	"regexp"
 	"runtime"
 	"sort"
 	"strings"
@@ -521,7 +521,9 @@ func init() {
 			"and at every 4 KiB flush boundary +-2, the last 600 bytes and a stride for larger ones; strace-injected ENOSPC/EIO/EDQUOT on the n-th write(2) and on close(2) of the target; path faults (/dev/full, below a regular file, directory as target) and positive path cases. " +
 			"plus agreement twins: the same deterministic history (new document / opened foreign package + edits / reopened + edits, ending in a late styled edit) is built twice, one twin is saved first and serialised afterwards, the other the other way round, and all four outputs must carry equal parts (docProps time stamps masked). " +
 			"Oracle: Save==nil => file is a complete package whose parts equal ToBytes taken immediately before; injected fault => Save!=nil. A case = one (document, offset chunk); non-trivial if >=1 fault point was injected; distinct = (doc, size, chunk).",
-		Cases: func(t string) int { return c05Docs(t)*c05Chunks + tierN(t, 6, 24) + tierN(t, 8, 60) + tierN(t, 240, 6000) },
+		Cases: func(t string) int {
+			return c05Docs(t)*c05Chunks + tierN(t, 6, 24) + tierN(t, 8, 60) + tierN(t, 240, 6000)
+		},
 		Run: func(c *core.Ctx) *core.Result {
 			sweep := c05Docs(c.Tier) * c05Chunks
 			nPath := tierN(c.Tier, 6, 24)
